@@ -25,7 +25,7 @@ import pipeline
 from pipeline import close
 
 
-def check_model(rep, drv, gen, rng, m, text, c, npts=3):
+def check_model(rep, drv, gen, rng, m, text, c, npts=3, fixed_points=None):
     if not family.mirror_agrees(rep, c, text):
         return
     # the items the parser produced are the items the text was rendered from (grammar contract)
@@ -56,7 +56,16 @@ def check_model(rep, drv, gen, rng, m, text, c, npts=3):
     v2 = pipeline.validate(drv, "named", 0, len(lay["order"]), lay["order"], mb)
     structural_ok = v1.get("valid") and v2.get("valid")
     ns = impl.exec_module(code)
-    pts, tried = family.usable_points(gen, m, 12, want=npts)
+    if fixed_points is not None:
+        pts, tried = [], 0
+        for pt in fixed_points:
+            try:
+                ref, S, margin = pipeline.reference_point(m, pt)
+                pts.append((pt, ref, S))
+            except (lang.Undefined, KeyError):
+                pass
+    else:
+        pts, tried = family.usable_points(gen, m, 12, want=npts)
     rep.count("points_tried", tried)
     rep.count("points_used", len(pts))
     pyns = lang.python_namespace()
@@ -116,6 +125,10 @@ def check_model(rep, drv, gen, rng, m, text, c, npts=3):
         if name and gen_txt and "ContinuousConditional" in lang.render(defs[name]) and "nan" in what \
                 and re.search(r"(?<![\d.])0\.0 ?\*[^,]*exp\(", gen_txt) and "numpy.where" in gen_txt:
             key = "C01-ccond-exp-split-in-conditional"
+        elif name and gen_txt and re.search(r"logical_and\((\w+) >= 0, \1 <= numpy\.pi\)", gen_txt) \
+                and re.search(r"[aA]bs\(", lang.render(defs[name])) and re.search(r"(sin|cos|tan)\(", lang.render(defs[name])) \
+                and "Conditional" in lang.render(defs[name]):
+            key = "C01-simplify-abs-trig-in-conditional"
         rep.violation(what, {"kind": "direct", "text": text, "inputs": pt, "name": name,
                              "definition": None if name is None else lang.render(defs[name]),
                              "generated": gen_txt}, finding_key=key)
@@ -139,6 +152,20 @@ def main(argv=None):
     gen = lang.Gen(rng)
     n = a.n or (60 if a.tier == "quick" else 1500)
     hist = {}
+    # corpus first: minimised / recorded disagreements of earlier runs
+    import json, glob, os
+    import textmodel
+    for f in sorted(glob.glob(str(core.CORPUS / "C01" / "*.ode"))):
+        text = open(f).read()
+        meta = json.load(open(f[:-4] + ".json")) if os.path.exists(f[:-4] + ".json") else {}
+        c = pipeline.Case(drv, text)
+        if c.err is not None:
+            rep.violation(f"corpus model {os.path.basename(f)} is rejected: {c.err}", {"kind": "direct", "text": text})
+            continue
+        m = textmodel.model_from_items(c.captured)
+        core.guarded(rep, text, check_model, rep, drv, gen, rng, m, text, c, fixed_points=meta.get("inputs"))
+        rep.case(key=text, nontrivial=True)
+        rep.count("corpus_models")
     for i in range(n):
         # vary generator parameters so that depth, conditionals and shapes are all exercised
         gen.max_depth = rng.choice([2, 3, 4, 4, 5, 6])
